@@ -58,9 +58,6 @@ var (
 	c20Only  = flag.Int("only", -1, "only this case")
 	c20Tier  = flag.String("tier", "quick", "quick|thorough")
 	c20Facts = flag.String("facts", "", "write Generated/C20Facts.v and exit")
-	// the two latent defects found by this check (see the report) are exercised in dedicated
-	// families; with -findings=fail their oracle failures are written to oracle.txt
-	c20Findings = flag.String("findings", "count", "count|fail: how the highid/emptymsg families report")
 )
 
 type c20Rand struct{ s uint64 }
@@ -164,6 +161,19 @@ func (o *c20Out) Close(seed uint64) {
 		"rule": o.rule, "dist": o.dist, "samples": o.samples, "oracle_failures": o.fails, "seed": seed}
 	b, _ := json.MarshalIndent(st, "", " ")
 	os.WriteFile(filepath.Join(o.dir, "stats.json"), b, 0o644)
+}
+
+func c20Min(a, b int) int {
+	if a < b {
+		return a
+	}
+	return b
+}
+func c20Max(a, b int) int {
+	if a > b {
+		return a
+	}
+	return b
 }
 
 func c20Digest(b []byte) string {
@@ -369,7 +379,7 @@ var c20Caps = []int{1, 2, 7, 100, dataMaxSize - 1, dataMaxSize, dataMaxSize + 1,
 
 const c20Sealed = totalFrameSize + aeadSizeOverhead
 
-type c20Dir struct {
+type c20Direction struct {
 	pending   [][]byte // sealed frames written, not yet forwarded
 	hist      [][]byte // all genuine frames of this direction
 	fwdInOrd  int      // number of genuine frames forwarded in order so far (while clean)
@@ -410,7 +420,7 @@ func c20SCCase(o *c20Out, idx int, r *c20Rand) {
 	if c20KeyID(ra.sc.RemotePubKey()) != c20KeyID(kb.PublicKey) || c20KeyID(rb.sc.RemotePubKey()) != c20KeyID(ka.PublicKey) {
 		o.Fail(0, "identity", "honest handshake: wrong remote public key")
 	}
-	dirs := []*c20Dir{{tamperOff: -1}, {tamperOff: -1}}
+	dirs := []*c20Direction{{tamperOff: -1}, {tamperOff: -1}}
 	step := 0
 	overflow := r.Chance(1, 14)
 	if overflow {
@@ -488,7 +498,7 @@ func c20SCCase(o *c20Out, idx int, r *c20Rand) {
 				}
 				d.written = append(d.written, data...)
 			} else {
-				d.written = append(d.written, data[:min(len(data), nfr*dataMaxSize)]...)
+				d.written = append(d.written, data[:c20Min(len(data), nfr*dataMaxSize)]...)
 			}
 		}
 		// ---- forward with an edit script
@@ -647,7 +657,7 @@ func c20SizeClass(sz int) string {
 	return "multi"
 }
 
-func c20TamperToken(r *c20Rand, d, other *c20Dir, pos int) string {
+func c20TamperToken(r *c20Rand, d, other *c20Direction, pos int) string {
 	for {
 		switch r.Intn(11) {
 		case 0:
@@ -684,7 +694,7 @@ func c20TamperToken(r *c20Rand, d, other *c20Dir, pos int) string {
 
 // c20Forward applies the edit script to the pending frames of direction d and appends the result
 // to the reader's inbound queue.  Same semantics as sc_forward in ocaml/C20/driver.ml.
-func c20Forward(o *c20Out, d, other *c20Dir, q *c20Queue, toks []string) int {
+func c20Forward(o *c20Out, d, other *c20Direction, q *c20Queue, toks []string) int {
 	added := 0
 	put := func(f []byte) { q.Write(f); added += len(f); d.appended += len(f) }
 	pop := func() []byte {
@@ -888,7 +898,7 @@ func c20SWCase(o *c20Out, idx int, r *c20Rand) {
 			break
 		}
 		w, seq, sz := int(p[0]), int(binary.LittleEndian.Uint16(p[1:])), int(binary.LittleEndian.Uint16(p[3:]))
-		if w >= nwr || seq != next[w] || seq >= len(plans[w]) || sz != max(plans[w][seq], 5) || len(p) < sz || !bytes.Equal(p[:sz], c20SWPayload(w, seq, sz)) {
+		if w >= nwr || seq != next[w] || seq >= len(plans[w]) || sz != c20Max(plans[w][seq], 5) || len(p) < sz || !bytes.Equal(p[:sz], c20SWPayload(w, seq, sz)) {
 			okParse = false
 			break
 		}
@@ -1161,17 +1171,14 @@ type c20Desc struct {
 	sendcap, recvcap int
 }
 
-func c20Descs(r *c20Rand, high bool) []c20Desc {
+func c20Descs(r *c20Rand) []c20Desc {
 	n := 1 + r.Intn(4)
 	used := map[byte]bool{}
 	var ds []c20Desc
 	for len(ds) < n {
-		id := byte(r.Intn(0x80))
+		id := byte(r.Intn(0x100))
 		if r.Chance(1, 3) {
-			id = []byte{0x00, 0x20, 0x21, 0x22, 0x23, 0x30, 0x38, 0x40, 0x7f, 0x01}[r.Intn(10)]
-		}
-		if high && len(ds) == 0 {
-			id = byte(0x80 + r.Intn(0x80))
+			id = []byte{0x00, 0x20, 0x21, 0x22, 0x23, 0x30, 0x38, 0x40, 0x7f, 0x01, 0x80, 0xff}[r.Intn(12)]
 		}
 		if used[id] {
 			continue
@@ -1296,7 +1303,7 @@ func c20FeedReceiver(o *c20Out, ds []c20Desc, maxp int, stream []byte) (events [
 	go io.Copy(io.Discard, client) // pongs
 	client.SetWriteDeadline(time.Now().Add(10 * time.Second))
 	for len(stream) > 0 {
-		k := min(len(stream), 4096)
+		k := c20Min(len(stream), 4096)
 		if _, err := client.Write(stream[:k]); err != nil {
 			break
 		}
@@ -1326,22 +1333,50 @@ func c20EncodePacket(p *kp2p.PacketMsg) []byte {
 
 // per-channel exactly-once / in-order / oversize oracles
 func c20CheckDeliveries(o *c20Out, ds []c20Desc, sent map[byte][][]byte, events [][2]interface{}, cls string, complete bool, family string) {
+	c20CheckDeliveriesQ(o, ds, sent, events, cls, complete, family, nil)
+}
+
+// c20EmptyDropped reports whether got equals sent with some zero-length messages removed, and
+// the index (in sent) of the first removed one.
+func c20EmptyDropped(sent, got [][]byte) (bool, int) {
+	first := -1
+	j := 0
+	for i, m := range sent {
+		if j < len(got) && bytes.Equal(m, got[j]) {
+			j++
+			continue
+		}
+		if len(m) == 0 {
+			if first < 0 {
+				first = i
+			}
+			continue
+		}
+		return false, -1
+	}
+	return j == len(got) && first >= 0, first
+}
+
+func c20CheckDeliveriesQ(o *c20Out, ds []c20Desc, sent map[byte][][]byte, events [][2]interface{}, cls string, complete bool, family string, qsize map[byte]int) {
 	got := map[byte][][]byte{}
 	for _, e := range events {
 		got[e[0].(byte)] = append(got[e[0].(byte)], e[1].([]byte))
 	}
-	fail := func(class, detail string) {
-		if family != "" {
-			o.Count("finding:" + family + ":" + class)
-			if *c20Findings == "fail" {
-				o.Fail(0, family, class+" "+detail)
-			}
-			return
-		}
-		o.Fail(0, class, detail)
-	}
+	fail := func(class, detail string) { o.Fail(0, class, detail) }
 	for _, d := range ds {
 		s, g := sent[d.id], got[d.id]
+		if family == "empty-msg-lost" && complete && cls == "eof" && len(g) < len(s) {
+			// known finding: the only tolerated discrepancy is zero-length messages missing
+			if ok, first := c20EmptyDropped(s, g); ok {
+				how := "stuck in ch.sending for ever (nothing was queued after it)"
+				if first < len(s)-1 {
+					how = "overwritten by the next queued message"
+				}
+				o.Count("finding:empty-msg-lost")
+				o.Fail(0, "empty-msg-lost", fmt.Sprintf("channel %x of %d channels: zero-length message #%d queued while another channel had data pending was never delivered: %s; sendQueueSize stayed %d after all queues were drained", d.id, len(ds), first, how, qsize[d.id]))
+				continue
+			}
+		}
 		for i, m := range g {
 			if i >= len(s) {
 				fail("msg-dup", fmt.Sprintf("channel %x: %d messages delivered, %d sent", d.id, len(g), len(s)))
@@ -1377,15 +1412,21 @@ func c20CheckDeliveries(o *c20Out, ds []c20Desc, sent map[byte][][]byte, events 
 			fail("msg-unknown-channel", fmt.Sprintf("delivery on unconfigured channel %x", id))
 		}
 	}
-	if complete && cls != "eof" && family == "" {
+	if complete && cls != "eof" {
 		anyOver := false
+		hi := false
 		for _, d := range ds {
+			hi = hi || d.id >= 0x80
 			for _, m := range sent[d.id] {
 				anyOver = anyOver || len(m) > d.recvcap
 			}
 		}
 		if !anyOver {
-			fail("spurious-error", "receiver failed with "+cls+" on an honest packet stream without oversize messages")
+			class := "spurious-error"
+			if cls == "toobig" && hi {
+				class = "highid-maxsize"
+			}
+			fail(class, "receiver failed with "+cls+" on an honest packet stream without oversize messages")
 		}
 	}
 }
@@ -1410,15 +1451,14 @@ func c20EmitRX(o *c20Out, events [][2]interface{}, cls string) {
 // MD: deterministic stepping of the packetiser
 func c20MDCase(o *c20Out, idx int, r *c20Rand) {
 	family := ""
-	high, empty := false, false
-	switch r.Intn(12) {
-	case 0:
-		family, high = "highid-maxsize", true
-	case 1:
+	maxp := c20MaxP(r)
+	ds := c20Descs(r)
+	// zero-length messages: strictly checked on a single channel; with several channels they hit
+	// the known finding empty-msg-lost (dedicated family)
+	empty := len(ds) == 1
+	if len(ds) > 1 && r.Chance(1, 8) {
 		family, empty = "empty-msg-lost", true
 	}
-	maxp := c20MaxP(r)
-	ds := c20Descs(r, high)
 	o.Case(idx, fmt.Sprintf("CASE %d MD", idx))
 	c20EmitDescs(o, ds, maxp)
 	capc := &c20NullConn{}
@@ -1475,11 +1515,13 @@ func c20MDCase(o *c20Out, idx int, r *c20Rand) {
 			ci := r.Intn(len(ds))
 			d := ds[ci]
 			sz := c20MsgSize(r, maxp, d.recvcap, allowOver, empty)
-			if high && ci == 0 && r.Chance(1, 2) {
+			if d.id >= 0x80 && r.Chance(1, 3) && maxp <= d.recvcap {
+				// full final packet on a two-byte channel id (class highid-maxsize, repaired by 061bd4b)
 				sz = maxp * (1 + r.Intn(3))
 				if sz > d.recvcap {
 					sz = maxp
 				}
+				o.Count("md:highid-full-packet")
 			}
 			msg := r.Bytes(sz)
 			ok := a.channelsIdx[d.id].trySendBytes(msg)
@@ -1510,10 +1552,8 @@ func c20MDCase(o *c20Out, idx int, r *c20Rand) {
 		o.Op(fmt.Sprintf("Q %d", ci), fmt.Sprintf("Q qsize=%d cansend=%s", ch.loadSendQueueSize(), map[bool]string{true: "1", false: "0"}[ch.canSend()]))
 		if ch.loadSendQueueSize() != 0 {
 			if family == "empty-msg-lost" {
+				// reported together with the missing delivery below
 				o.Count("finding:empty-msg-lost:queue-size-leak")
-				if *c20Findings == "fail" {
-					o.Fail(step, "empty-msg-lost", fmt.Sprintf("channel %x: sendQueueSize %d after the queues were drained", d.id, ch.loadSendQueueSize()))
-				}
 			} else {
 				o.Fail(step, "queue-size-leak", fmt.Sprintf("channel %x: sendQueueSize %d after the queues were drained", d.id, ch.loadSendQueueSize()))
 			}
@@ -1521,7 +1561,11 @@ func c20MDCase(o *c20Out, idx int, r *c20Rand) {
 	}
 	events, cls := c20FeedReceiver(o, ds, maxp, stream)
 	c20EmitRX(o, events, cls)
-	c20CheckDeliveries(o, ds, sent, events, cls, true, family)
+	qs := map[byte]int{}
+	for _, d := range ds {
+		qs[d.id] = a.channelsIdx[d.id].loadSendQueueSize()
+	}
+	c20CheckDeliveriesQ(o, ds, sent, events, cls, true, family, qs)
 	o.Count("md:case")
 	o.Count("md:end:" + cls)
 	if family != "" {
@@ -1549,7 +1593,7 @@ func c20MsgClass(sz, maxp, rc int) string {
 // MR: crafted packet streams
 func c20MRCase(o *c20Out, idx int, r *c20Rand) {
 	maxp := c20MaxP(r)
-	ds := c20Descs(r, false)
+	ds := c20Descs(r)
 	o.Case(idx, fmt.Sprintf("CASE %d MR", idx))
 	c20EmitDescs(o, ds, maxp)
 	sent := map[byte][][]byte{}
@@ -1670,7 +1714,7 @@ func c20MRCase(o *c20Out, idx int, r *c20Rand) {
 // MX: real pair, concurrent senders, recording tap
 func c20MXCase(o *c20Out, idx int, r *c20Rand) {
 	maxp := c20MaxP(r)
-	ds := c20Descs(r, false)
+	ds := c20Descs(r)
 	o.Case(idx, fmt.Sprintf("CASE %d MX", idx))
 	c20EmitDescs(o, ds, maxp)
 	allowOver := r.Chance(1, 5)
@@ -1678,7 +1722,7 @@ func c20MXCase(o *c20Out, idx int, r *c20Rand) {
 	for ci, d := range ds {
 		nm := 1 + r.Intn(6)
 		for i := 0; i < nm; i++ {
-			plans[ci] = append(plans[ci], r.Bytes(c20MsgSize(r, maxp, d.recvcap, allowOver, false)))
+			plans[ci] = append(plans[ci], r.Bytes(c20MsgSize(r, maxp, d.recvcap, allowOver, len(ds) == 1)))
 		}
 	}
 	a1, a2 := net.Pipe()
@@ -1731,7 +1775,7 @@ func c20MXCase(o *c20Out, idx int, r *c20Rand) {
 						return
 					}
 					var ok bool
-					if useSend && ds[ci].sendcap > 1 {
+					if useSend && !allowOver && ds[ci].sendcap > 1 {
 						ok = a.Send(id, m)
 					} else {
 						ok = a.TrySend(id, m)
